@@ -23,6 +23,7 @@ import (
 	"perkeep.org/pkg/blobserver/diskpacked"
 
 	"verif.local/harness/ev"
+	"verif.local/harness/inject"
 	"verif.local/harness/sto"
 )
 
@@ -153,6 +154,9 @@ type session struct {
 	// evicts: the store is a cache (memory.NewCache): it drops accepted blobs again by its documented
 	// LRU rule, so an accepted blob may be absent later; what IS there is judged as everywhere else
 	evicts bool
+	// px: the session's store is a hand-built proxycache over an origin with its own reasons to refuse
+	// (round6.go); its cache store is looked at after every offer
+	px  *pxOver
 	opt      scriptOpt // family-specific shape of the offer script (zero value: the normal session)
 
 	rec     sessRec
@@ -183,16 +187,24 @@ func labelOf(sp *sto.Spec) string {
 	return l
 }
 
-func newSession(r *ev.Run, root, id string, spec *sto.Spec, path string) (*session, error) {
+func newSession(r *ev.Run, root, id string, spec *sto.Spec, path string, plan ...*inject.Plan) (*session, error) {
 	dir, err := os.MkdirTemp(root, "s")
 	if err != nil {
 		return nil, err
 	}
+	env := &sto.Env{Dir: dir}
+	if len(plan) > 0 {
+		env.Plan = plan[0]
+	}
 	var b *sto.Built
-	if spec.Kind == "memcache" {
+	var px *pxOver
+	switch spec.Kind {
+	case "memcache":
 		b = &sto.Built{Spec: spec, S: newMemCache(spec), Caps: sto.Caps{Receive: true, Remove: true, SubFetch: true}}
-	} else {
-		b, err = sto.Build(&sto.Env{Dir: dir}, spec)
+	case "pxover":
+		px, b, err = buildPxOver(env, spec)
+	default:
+		b, err = sto.Build(env, spec)
 	}
 	if err != nil {
 		os.RemoveAll(dir)
@@ -202,6 +214,10 @@ func newSession(r *ev.Run, root, id string, spec *sto.Spec, path string) (*sessi
 		rng:    r.Rand("session/" + id + "/" + spec.String() + "/" + path),
 		stored: map[blob.Ref][]byte{}, rejNever: map[blob.Ref]bool{}, accepted: map[blob.Ref]int{}, broken: map[blob.Ref]bool{}}
 	s.rec = sessRec{CaseID: id + ";", Backend: spec.String(), Path: path}
+	if px != nil {
+		s.px = px
+		s.label = "proxycache@" + px.okind
+	}
 	s.attach(b.S)
 	return s, nil
 }
@@ -224,6 +240,9 @@ func (s *session) close() {
 	}
 	if s.b != nil {
 		s.b.Close()
+	}
+	if s.px != nil {
+		s.px.close()
 	}
 	os.RemoveAll(s.dir)
 }
@@ -401,6 +420,14 @@ func (s *session) judge(of *offer, out outcome, hookBefore int, a *attemptRec) {
 	if s.path == "nohash" {
 		r.Note("nohash", s.spec.Kind+"/"+of.Mut)
 	}
+	if s.px != nil {
+		r.Note("pxover", s.px.okind+"/"+s.path+"/"+of.Mut)
+		r.Note("pxover_caches", s.px.ckind)
+		r.Count("pxover_attempts", 1)
+		if _, st := s.stored[of.Ref]; st && of.Want == wantReject {
+			r.Note("pxover", s.px.okind+"/"+s.path+"/dup-corrupt")
+		}
+	}
 	if of.UH != "" {
 		r.Note("unknown_hash", s.path+"/"+of.UH)
 		r.Note("unknown_hash_backends", s.spec.Kind+"/"+of.UH)
@@ -504,7 +531,7 @@ func (s *session) judge(of *offer, out outcome, hookBefore int, a *attemptRec) {
 		if of.Boundary != "" {
 			r.Note("boundary_outcomes", of.Boundary+"/rejected")
 		}
-		if of.Want == wantAccept && len(of.Data) >= maxBlob-64<<10 && len(of.Data) <= maxBlob && hasKindDeep(s.spec, "encrypt") && out.mentionsSizeLimit() {
+		if of.Want == wantAccept && len(of.Data) >= maxBlob-64<<10 && len(of.Data) <= maxBlob && hasKindDeep(s.spec, "encrypt") && out.mentionsSizeLimit() && of.Mut != "near-cap" {
 			// the encrypting store adds the age overhead to what it writes below: the ciphertext of a
 			// valid blob this close to the cap is over the cap and the write below is refused
 			r.Note("observations", "valid-rejected-ciphertext-over-cap")
